@@ -442,7 +442,10 @@ func main() {
 	cls := []int64{-1, 0, 5, -1}
 	i := 0
 	for code := 100; code <= 599; code++ {
-		for _, meth := range methods {
+		for mi, meth := range methods {
+			if !thorough && mi >= 2 && (code+mi)%5 != 0 { // quick: every status x {GET,HEAD}; the other methods on every 5th status
+				continue
+			}
 			p := protos[i%len(protos)]
 			c := scaseJ{meth, respJ{Major: p[0], Minor: p[1], Code: code, Status: fmt.Sprintf("%d X", code),
 				Hdr: http.Header{"Content-Type": {ctPool[i%len(ctPool)]}}, CL: cls[(i/len(protos))%len(cls)]}}
@@ -452,7 +455,11 @@ func main() {
 		}
 	}
 	// full product of proto x cl x content-type on a few statuses
-	for _, code := range []int{100, 101, 199, 200, 204, 205, 304, 404} {
+	prodCodes := []int{100, 101, 199, 200, 204, 205, 304, 404}
+	if !thorough {
+		prodCodes = []int{200, 304}
+	}
+	for _, code := range prodCodes {
 		for _, meth := range []string{"GET", "HEAD"} {
 			for _, p := range [][2]int{{1, 1}, {1, 0}, {2, 0}, {0, 9}, {1, 2}} {
 				for _, cl := range []int64{-1, 0, 1, -2} {
@@ -466,7 +473,7 @@ func main() {
 		}
 	}
 	m.Counts["scases"] = len(sc)
-	m.Exhaustive["scases"] = "every status 100..599 x {GET,HEAD,POST,CONNECT,OPTIONS}; 8 statuses x 2 methods x 5 protos x 4 lengths x 10 content types"
+	m.Exhaustive["scases"] = fmt.Sprintf("every status 100..599 x {GET,HEAD} (thorough: x {GET,HEAD,POST,CONNECT,OPTIONS}); %d statuses x 2 methods x 5 protos x 4 lengths x 10 content types", len(prodCodes))
 	ss.shardSize = 1000
 	ss.write("scases", "scase", "scase_model_ok", "scase_prop_ok", sc)
 	writeJSONL(*out, "scases.jsonl", sj)
@@ -499,7 +506,7 @@ func main() {
 		}
 		addH(c)
 	}
-	extraH := 300
+	extraH := 100
 	if thorough {
 		extraH = 4000
 	}
@@ -573,7 +580,7 @@ func main() {
 	addF(fcaseJ{sse, []string{"data: 1\n", "\n"}, true})
 	// production pattern lists on event-stream-like and chunk-like write sequences
 	evAlpha := []string{"\n", "\r", "\r\n", "d", "data: x", "\n\n", "\r\r", "\r\n\r\n", ":", "5\r\n", "0\r\n"}
-	nRand := 1200
+	nRand := 800
 	if thorough {
 		nRand = 12000
 	}
@@ -623,7 +630,7 @@ func main() {
 	}
 	bodyPieces := []string{"hello", "x", "data: 1\n\n", "data: 2\r\n\r\n", "a\rb", "\r", "\n", "0123456789", "", "\r\n"}
 	framings := map[string]int{}
-	nG := 1200
+	nG := 600
 	if thorough {
 		nG = 10000
 	}
